@@ -251,9 +251,10 @@ op('dot', _gen_dot, lambda a: algopy.dot(a[0], a[1]), lambda z: np.dot(z[0], z[1
 
 def _gen_outer(rng, D, P, tier):
     n = rng.randint(1, 3)
+    m = rng.choice([n, n, rng.randint(1, 3)])
     kind = rng.choice(['uu', 'uu', 'ua', 'au'])
     x = U(rand_coeffs(rng, (D, P, n), -2, 2)) if kind[0] == 'u' else A(rand_coeffs(rng, (n,), -2, 2))
-    y = U(rand_coeffs(rng, (D, P, n), -2, 2)) if kind[1] == 'u' else A(rand_coeffs(rng, (n,), -2, 2))
+    y = U(rand_coeffs(rng, (D, P, m), -2, 2)) if kind[1] == 'u' else A(rand_coeffs(rng, (m,), -2, 2))
     return [x, y]
 
 
